@@ -55,6 +55,7 @@ def run_check(prop, tier, seed):
 
         # ---- TV: traces from the real code, validated by TLC
         tdir = os.path.join(scratch, 'traces')
+        crashes = []
         for drv in plan.get('drivers', []):
             t = drv.get('tiers', {}).get(tier, {})
             h = harness_race if drv.get('race') else harness
@@ -62,9 +63,18 @@ def run_check(prop, tier, seed):
             if drv.get('race'):
                 # the race detector reports into files; a report is real-code evidence (see the race leg)
                 denv = dict(os.environ, GORACE='log_path=%s halt_on_error=0 exitcode=0' % os.path.join(scratch, 'race-report'))
-            sums = vf.run_driver(h, drv['name'], tier, seed, tdir, shards=t.get('shards', drv.get('shards', 8)),
-                                 per=t.get('per', drv.get('per', 60000)), env=denv)
+            if drv.get('conc'):
+                # the schedule dimension: the same driver, its shards as goroutines of one process
+                sums = vf.run_conc(h, drv['name'], tier, seed, tdir, goroutines=drv.get('goroutines', 8),
+                                   limit=t.get('limit', drv.get('limit', 20000)), per=drv.get('per', 60000))
+                cov.setdefault('concurrent', []).append({'driver': drv['name'], 'goroutines': drv.get('goroutines', 8),
+                                                         'events': sum(x['events'] for x in sums)})
+            else:
+                sums = vf.run_driver(h, drv['name'], tier, seed, tdir, shards=t.get('shards', drv.get('shards', 8)),
+                                     per=t.get('per', drv.get('per', 60000)), env=denv)
             for s in sums:
+                if s.get('crash'):
+                    crashes.append(('C18.crash', [s['req']], 'driver %s shard %d: the process died inside the call (%s)' % (s['driver'], s['shard'], s['how'])))
                 for op, n in s['ops'].items():
                     cov['driver_ops'][op] = cov['driver_ops'].get(op, 0) + n
         files = sorted(glob.glob(os.path.join(tdir, '*.ndjson')))
@@ -96,7 +106,7 @@ def run_check(prop, tier, seed):
         del distinct
 
         # ---- extra legs (graphs, MBT) are plug-ins: each returns (coverage-part, mismatches)
-        extra_bads = []
+        extra_bads = list(crashes)
         unreproduced = []
         for leg in plan.get('legs', []):
             if leg == 'apalache_masks':
@@ -134,12 +144,22 @@ def run_check(prop, tier, seed):
                     continue
                 for c in codes:
                     pending.append((c, evs, new[-1], note, None))
+            elif code == 'C18.crash':
+                # "returns normally" failed in the strongest way: confirmed by re-executing the request alone
+                again, how = vf.replay_crash(harness, evs, scratch)
+                if not again:
+                    raise vf.HarnessError('%s, but the request alone completes in a fresh process; not a verdict' % note)
+                if claimed(code, plan['codes']):
+                    violations.append((code, evs, note + '; again when executed alone in a fresh process (%s)' % how, None))
+                else:
+                    others.append((code, note))
             elif code == 'C19.race':
-                violations.append((code, evs, note))      # a detector report is not re-executable
+                violations.append((code, evs, note, None))      # a detector report is not re-executable
             else:
                 pending.append((code, evs, evs[-1], note, None))
 
         replayed_codes = {}
+        conc_info = {}
         for (code, evs, target, note, origin) in pending:
             if not claimed(code, plan['codes']):
                 others.append((code, note))
@@ -162,13 +182,26 @@ def run_check(prop, tier, seed):
                                 len(hist) - 1, 'driver process' if whole else 'trace chunk')
                             break
                 replayed_codes[code] = cnt + 1
+                base = os.path.basename(origin[0]) if origin else ''
+                if code not in codes and base.startswith('conc-'):
+                    # seen in a goroutine's trace of the concurrent run and neither the call alone nor the
+                    # goroutine's own history shows it: it needs the other goroutines. Observe it again.
+                    spec = [d for d in plan['drivers'] if d.get('conc') and base.startswith('conc-%s-g' % d['name'])][0]
+                    t = spec.get('tiers', {}).get(tier, {})
+                    spec = dict(spec, limit=t.get('limit', spec.get('limit', 20000)))
+                    ev2, tries = vf.reobserve_conc(harness, spec, tier, seed, scratch, code, module=mod)
+                    if ev2 is not None:
+                        conc_info[id(evs)] = {'driver': spec['name'], 'goroutines': spec.get('goroutines', 8), 'tier': tier,
+                                              'seed': seed, 'limit': spec['limit']}
+                        note += ' (only when calls run concurrently in one process; observed again in a fresh concurrent run, attempt %d)' % tries
+                        codes = [code]
                 if code not in codes:
                     raise vf.HarnessError('mismatch %s at %s did not reproduce, neither in isolation nor with its history '
                                           '(codes now %s); not a verdict' % (code, note, codes))
             if k:
                 known_hits.append((k, code, note))
             else:
-                violations.append((code, evs, note))
+                violations.append((code, evs, note, conc_info.get(id(evs))))
         # The trace specification lists at most 25 failures per demand code and chunk. Unlisted
         # failures share their code with listed ones; that only matters when every listed failure of
         # a claimed code was explained by a known finding (the unlisted ones might not be).
@@ -195,11 +228,11 @@ def run_check(prop, tier, seed):
                 vf.log('NOTE: demand %s (%s) failed at %s; not part of %s' % (code, kind, note, prop))
                 seen.add(code)
         percode = {}
-        for (code, evs, note) in violations:
+        for (code, evs, note, conc) in violations:
             percode[code] = percode.get(code, 0) + 1
             if percode[code] > 3 or sum(1 for c in percode if percode[c] >= 1) > 12 and percode[code] > 1:
                 continue
-            path = vf.write_replay_file(prop, code, evs, 'demand %s of the specification failed at %s' % (code, note))
+            path = vf.write_replay_file(prop, code, evs, 'demand %s of the specification failed at %s' % (code, note), concurrent=conc)
             vf.log('VIOLATION property=%s replay=%s' % (prop, path))
             vf.log('  (demand %s at %s)' % (code, note))
         if violations:
